@@ -430,7 +430,7 @@ func (r *run) convert(cur *node, v Value, from, to types.Type) Value {
 			cur.setPV(heap, c.Store(h, ref, content))
 			ln := r.uf("len.of$"+typeKey(to), r.idx(), sv.T)
 			r.assume(c.True(), r.sle(r.idxConst(0), ln))
-			r.assume(c.True(), r.sle(ln, r.idxConst(r.E.sliceBound())))
+			r.assume(c.True(), r.sle(ln, r.idxConst(r.sliceBound())))
 			// []rune(s) decodes s faithfully (no byte replaced by U+FFFD) exactly when s is valid UTF-8.
 			// The link is stated only when a contract file declares the two predicates:
 			//   u8_valid_str(Str) Bool   and   u8_faithful((Array idx rune) idx idx) Bool
@@ -645,6 +645,7 @@ func (r *run) builtin(fr *frame, cur *node, x *ssa.Call, b *ssa.Builtin, args []
 				}
 				ln := r.uf("strlen$", r.idx(), a.T)
 				r.assume(c.True(), r.sle(r.idxConst(0), ln))
+				r.assume(c.True(), r.sle(ln, r.idxConst(r.sliceBound())))
 				return Scalar{ln}
 			}
 			if a.T.Sort == smt.Int { // map: length opaque
@@ -693,6 +694,9 @@ func (r *run) appendOp(fr *frame, cur *node, x *ssa.Call, args []Value) Value {
 		if sc, ok := args[1].(Scalar); ok && sc.T.Sort == smt.Int {
 			return dst // append(s, nil...)
 		}
+		if sc, ok := args[1].(Scalar); ok && sc.T.Sort == StrSort && es != nil {
+			return r.appendString(cur, dst, sc.T, es)
+		}
 		r.unsupported("append of %T", args[1])
 	}
 	// Only the common single-element form append(s, v) is modelled precisely: ssa builds a 1-element array
@@ -720,7 +724,7 @@ func (r *run) appendOp(fr *frame, cur *node, x *ssa.Call, args []Value) Value {
 	newCap := c.Fresh("appendcap", r.idx())
 	newLen := r.iadd(dst.Len, r.idxConst(1))
 	r.assume(c.True(), r.sle(newLen, newCap))
-	r.assume(c.True(), r.sle(newCap, r.idxConst(r.E.sliceBound())))
+	r.assume(c.True(), r.sle(newCap, r.idxConst(r.sliceBound())))
 	return SliceV{
 		Base: Loc{Heap: dst.Base.Heap, Idxs: []*smt.Term{c.Ite(inPlace, dst.Base.Idxs[0], newRef)}, T: dst.Base.T},
 		Off:  dst.Off, Len: newLen, Cap: c.Ite(inPlace, dst.Cap, newCap),
@@ -787,9 +791,47 @@ func (r *run) appendStruct(fr *frame, cur *node, x *ssa.Call, dst, src SliceV) V
 	newCap := c.Fresh("appendcap", r.idx())
 	newLen := r.iadd(dst.Len, r.idxConst(1))
 	r.assume(c.True(), r.sle(newLen, newCap))
-	r.assume(c.True(), r.sle(newCap, r.idxConst(r.E.sliceBound())))
+	r.assume(c.True(), r.sle(newCap, r.idxConst(r.sliceBound())))
 	return SliceV{
 		Base: Loc{Heap: dst.Base.Heap, Idxs: []*smt.Term{c.Ite(inPlace, dst.Base.Idxs[0], newRef)}, T: dst.Base.T},
+		Off:  dst.Off, Len: newLen, Cap: c.Ite(inPlace, dst.Cap, newCap),
+	}
+}
+
+// appendString: append(dst, s...) for a byte slice dst and a string s: like appendMany with the bytes of s
+// (contents by quantified facts in int mode, left unconstrained in bit-vector mode).
+func (r *run) appendString(cur *node, dst SliceV, s *smt.Term, es *smt.Sort) Value {
+	c := r.C()
+	slen := r.uf("strlen$", r.idx(), s)
+	r.assume(c.True(), r.sle(r.idxConst(0), slen))
+	r.assume(c.True(), r.sle(slen, r.idxConst(r.sliceBound())))
+	newLen := r.iadd(dst.Len, slen)
+	inPlace := c.And(c.Fresh("append.inplace", smt.Bool), r.sle(newLen, dst.Cap))
+	newRef := r.newRef(cur)
+	resRef := c.Ite(inPlace, dst.Base.Idxs[0], newRef)
+	heap := dst.Base.Heap + "[]"
+	hs := r.heapSort(2, es)
+	h := cur.getPV(heap, hs)
+	oldRow := c.Select(h, dst.Base.Idxs[0])
+	row := c.Fresh("append.row", hs.Elem)
+	if r.mode == "int" {
+		j := c.BoundVar("j", smt.Int)
+		lo := r.iadd(dst.Off, dst.Len)
+		hi := r.iadd(lo, slen)
+		pat := []*smt.Term{c.Select(row, j)}
+		r.assume(cur.alive, c.Forall([]*smt.Term{j}, c.Implies(c.And(r.sle(dst.Off, j), r.slt(j, lo)),
+			c.Eq(c.Select(row, j), c.Select(oldRow, j))), pat))
+		r.assume(cur.alive, c.Forall([]*smt.Term{j}, c.Implies(c.And(r.sle(lo, j), r.slt(j, hi)),
+			c.Eq(c.Select(row, j), r.uf("strat$", es, s, r.isub(j, lo)))), pat))
+		r.assume(cur.alive, c.Forall([]*smt.Term{j}, c.Implies(c.And(inPlace, c.Or(r.slt(j, lo), r.sle(hi, j))),
+			c.Eq(c.Select(row, j), c.Select(oldRow, j))), pat))
+	}
+	cur.setPV(heap, c.Store(h, resRef, row))
+	newCap := c.Fresh("appendcap", r.idx())
+	r.assume(c.True(), r.sle(newLen, newCap))
+	r.assume(c.True(), r.sle(newCap, r.idxConst(r.sliceBound())))
+	return SliceV{
+		Base: Loc{Heap: dst.Base.Heap, Idxs: []*smt.Term{resRef}, T: dst.Base.T},
 		Off:  dst.Off, Len: newLen, Cap: c.Ite(inPlace, dst.Cap, newCap),
 	}
 }
@@ -837,7 +879,7 @@ func (r *run) appendMany(fr *frame, cur *node, x *ssa.Call, dst, src SliceV) Val
 	}
 	newCap := c.Fresh("appendcap", r.idx())
 	r.assume(c.True(), r.sle(newLen, newCap))
-	r.assume(c.True(), r.sle(newCap, r.idxConst(r.E.sliceBound())))
+	r.assume(c.True(), r.sle(newCap, r.idxConst(r.sliceBound())))
 	return SliceV{
 		Base: Loc{Heap: dst.Base.Heap, Idxs: []*smt.Term{resRef}, T: dst.Base.T},
 		Off:  dst.Off, Len: newLen, Cap: c.Ite(inPlace, dst.Cap, newCap),
@@ -1723,6 +1765,7 @@ func (fr *frame) loopEnv(l *loop, at *node, pkg *pkgRef) *env {
 			en.vars[fv.Name()] = TV{V: v, T: fv.Type()}
 		}
 	}
+	en.shadowReassigned(fr, l.header)
 	en.lazy = func(name string) (TV, bool) {
 		v := fr.r.E.namedValueAt(fr.fn, name, l.header)
 		if v == nil {
@@ -1766,6 +1809,9 @@ func (fr *frame) loopEnvAt(at *node, pkg *pkgRef) *env {
 				en.vars[fv.Name()] = TV{V: v, T: fv.Type()}
 			}
 		}
+	}
+	if root != nil {
+		en.shadowReassigned(fr, at.blk)
 	}
 	en.lazy = func(name string) (TV, bool) {
 		if at.blk == nil {
